@@ -61,6 +61,11 @@ static int same(const void* a, const void* b, int nwords, int isdouble) {
 int main(int argc, char** argv) {
   int have512 = __builtin_cpu_supports("avx512f");
   for (int it = 0; it < 4000; ++it) {
+    T_DD(_mm256_andnot_pd) T_DD(_mm256_max_pd) T_DD(_mm256_min_pd) T_DDD(_mm256_blendv_pd)
+#define T_CMP(f, imm) { LD(__m256d, a) LD(__m256d, b) if (it % 5 == 0) b = a; CP(shim__m256d, sa, a) CP(shim__m256d, sb, b) __m256d r = f(a, b, imm); shim__m256d s = shim##f(sa, sb, imm); CHECK(#f "/" #imm, r, s, 0); }
+    IMM16(T_CMP, _mm256_cmp_pd) T_CMP(_mm256_cmp_pd, 16) T_CMP(_mm256_cmp_pd, 17) T_CMP(_mm256_cmp_pd, 18) T_CMP(_mm256_cmp_pd, 19) T_CMP(_mm256_cmp_pd, 20) T_CMP(_mm256_cmp_pd, 21)
+    T_CMP(_mm256_cmp_pd, 22) T_CMP(_mm256_cmp_pd, 23) T_CMP(_mm256_cmp_pd, 24) T_CMP(_mm256_cmp_pd, 25) T_CMP(_mm256_cmp_pd, 26) T_CMP(_mm256_cmp_pd, 27) T_CMP(_mm256_cmp_pd, 28)
+    T_CMP(_mm256_cmp_pd, 29) T_CMP(_mm256_cmp_pd, 30) T_CMP(_mm256_cmp_pd, 31)
     T_DD(_mm256_add_pd) T_DD(_mm256_sub_pd) T_DD(_mm256_mul_pd) T_DD(_mm256_addsub_pd) T_DD(_mm256_and_pd) T_DD(_mm256_or_pd) T_DD(_mm256_xor_pd)
     T_DD(_mm256_unpacklo_pd) T_DD(_mm256_unpackhi_pd)
     T_DDD(_mm256_fmadd_pd) T_DDD(_mm256_fmsub_pd) T_DDD(_mm256_fmaddsub_pd) T_DDD(_mm256_fmsubadd_pd)
